@@ -199,6 +199,15 @@ def wave_case(res, case):
             if not np.array_equal(cc[:, k:n], before[:, k:n]):
                 res.violation(f'{key0}/sims-{k}g{int(cuda)}/rest', case, f'c_prop(sims={k}): lanes >= {k} were modified {nl}')
             res.count('cfg_sims')
+    # a simulator object that already propagated another stimulus gives the same results as a fresh one
+    for cuda in (False, True):
+        sim = W.make_sim(c, delays, n, caps=caps, cuda=cuda)
+        p0 = np.roll(np.arange(n), 3)
+        for perm in (p0, np.arange(n)):
+            for kk, pos in enumerate(ipos + spos):
+                sim.s[0, pos, :n] = init[kk][perm]; sim.s[1, pos, :n] = tt[kk][perm]; sim.s[2, pos, :n] = fin[kk][perm]
+            sim.s_to_c(); sim.c_prop(seed=0); sim.c_to_s()
+        compare(f'reuse-g{int(cuda)}', sim)   # memory behind the terminators may hold stale entries of the earlier run: ports only
     # delay datasets
     d3 = np.concatenate([delays, delays * 2, wsim.delay_array(nlines, W.zero_fork_delays(c, ['e' if x == 'u' else 'u' for x in case['plan']]))])
     singles = []
@@ -244,7 +253,7 @@ def wave_case(res, case):
 
 
 def finish(agg, tier):
-    need = ['cfg_opt', 'cfg_alloc', 'cfg_perm', 'cfg_sims', 'cfg_dataset', 'cfg_abuf', 'logic_cases']
+    need = ['cfg_opt', 'cfg_alloc', 'cfg_perm', 'cfg_sims', 'cfg_dataset', 'cfg_abuf', 'cfg_reuse', 'logic_cases']
     missing = [k for k in need if not agg.counters.get(k)]
     if missing: raise common.HarnessError(f'vacuity guard: {missing} zero')
     return {}
